@@ -51,6 +51,10 @@ func (ir *IntrospectionResolver) resolveSchema(schema *ast.Schema, selectionSet 
 			}
 			sortPayload(types)
 			result[f.Alias] = types
+		case "__typename":
+			result[f.Alias] = "__Schema"
+		case "description":
+			result[f.Alias] = nullableString(schema.Description)
 		case "queryType":
 			result[f.Alias] = ir.resolveType(schema, &ast.Type{NamedType: "Query"}, f.SelectionSet)
 		case "mutationType":
@@ -83,6 +87,8 @@ func (ir *IntrospectionResolver) resolveType(schema *ast.Schema, typ *ast.Type, 
 	if typ.NonNull {
 		for _, f := range common.SelectionSetToFields(selectionSet, nil) {
 			switch f.Name {
+			case "__typename":
+				result[f.Alias] = "__Type"
 			case "kind":
 				result[f.Alias] = "NON_NULL"
 			case "ofType":
@@ -101,6 +107,8 @@ func (ir *IntrospectionResolver) resolveType(schema *ast.Schema, typ *ast.Type, 
 	if typ.Elem != nil {
 		for _, f := range common.SelectionSetToFields(selectionSet, nil) {
 			switch f.Name {
+			case "__typename":
+				result[f.Alias] = "__Type"
 			case "kind":
 				result[f.Alias] = "LIST"
 			case "ofType":
@@ -119,6 +127,15 @@ func (ir *IntrospectionResolver) resolveType(schema *ast.Schema, typ *ast.Type, 
 
 	for _, f := range common.SelectionSetToFields(selectionSet, nil) {
 		switch f.Name {
+		case "__typename":
+			result[f.Alias] = "__Type"
+		case "specifiedByURL":
+			result[f.Alias] = nil
+			if d := namedType.Directives.ForName("specifiedBy"); d != nil {
+				if a := d.Arguments.ForName("url"); a != nil {
+					result[f.Alias] = a.Value.Raw
+				}
+			}
 		case "kind":
 			result[f.Alias] = namedType.Kind
 		case "name":
@@ -151,7 +168,7 @@ func (ir *IntrospectionResolver) resolveType(schema *ast.Schema, typ *ast.Type, 
 			}
 			result[f.Alias] = fields
 		case "description":
-			result[f.Alias] = namedType.Description
+			result[f.Alias] = nullableString(namedType.Description)
 		case "interfaces":
 			if namedType.Kind != ast.Object && namedType.Kind != ast.Interface {
 				result[f.Alias] = nil
@@ -227,10 +244,12 @@ func (ir *IntrospectionResolver) resolveField(schema *ast.Schema, field *ast.Fie
 
 	for _, f := range common.SelectionSetToFields(selectionSet, nil) {
 		switch f.Name {
+		case "__typename":
+			result[f.Alias] = "__Field"
 		case "name":
 			result[f.Alias] = field.Name
 		case "description":
-			result[f.Alias] = field.Description
+			result[f.Alias] = nullableString(field.Description)
 		case "args":
 			args := []map[string]interface{}{}
 			for _, arg := range field.Arguments {
@@ -254,10 +273,14 @@ func (ir *IntrospectionResolver) resolveDirective(schema *ast.Schema, directive 
 
 	for _, f := range common.SelectionSetToFields(selectionSet, nil) {
 		switch f.Name {
+		case "__typename":
+			result[f.Alias] = "__Directive"
+		case "isRepeatable":
+			result[f.Alias] = directive.IsRepeatable
 		case "name":
 			result[f.Alias] = directive.Name
 		case "description":
-			result[f.Alias] = directive.Description
+			result[f.Alias] = nullableString(directive.Description)
 		case "locations":
 			result[f.Alias] = directive.Locations
 		case "args":
@@ -272,12 +295,24 @@ func (ir *IntrospectionResolver) resolveDirective(schema *ast.Schema, directive 
 	return result
 }
 
+// nullableString renders an absent description as null
+func nullableString(s string) interface{} {
+	if s == "" {
+		return nil
+	}
+	return s
+}
+
 func hasDeprecatedDirective(directives ast.DirectiveList) (bool, *string) {
 	for _, d := range directives {
 		if d.Name == "deprecated" {
-			var reason string
+			// the reason declared by the @deprecated directive when none is given
+			reason := "No longer supported"
 			reasonArg := d.Arguments.ForName("reason")
 			if reasonArg != nil {
+				if reasonArg.Value.Kind == ast.NullValue {
+					return true, nil
+				}
 				reason = reasonArg.Value.Raw
 			}
 			return true, &reason
@@ -292,10 +327,12 @@ func (ir *IntrospectionResolver) resolveInputValue(schema *ast.Schema, arg *ast.
 
 	for _, f := range common.SelectionSetToFields(selectionSet, nil) {
 		switch f.Name {
+		case "__typename":
+			result[f.Alias] = "__InputValue"
 		case "name":
 			result[f.Alias] = arg.Name
 		case "description":
-			result[f.Alias] = arg.Description
+			result[f.Alias] = nullableString(arg.Description)
 		case "type":
 			result[f.Alias] = ir.resolveType(schema, arg.Type, f.SelectionSet)
 		case "defaultValue":
@@ -317,10 +354,12 @@ func resolveEnumValue(enum *ast.EnumValueDefinition, selectionSet ast.SelectionS
 
 	for _, f := range common.SelectionSetToFields(selectionSet, nil) {
 		switch f.Name {
+		case "__typename":
+			result[f.Alias] = "__EnumValue"
 		case "name":
 			result[f.Alias] = enum.Name
 		case "description":
-			result[f.Alias] = enum.Description
+			result[f.Alias] = nullableString(enum.Description)
 		case "isDeprecated":
 			result[f.Alias] = deprecated
 		case "deprecationReason":
